@@ -355,11 +355,24 @@ _MODEL = None
 def _expand(args):
     pool, seed, history, inplace_used, bound_inplace, last_level, only_inplace = args[:7]
     part = args[7] if len(args) > 7 else (0, 1)
+    expect = args[8] if len(args) > 8 else None
     fresh_only = True          # every level below the first: only operand tuples that touch the fresh part of the state
     only_inplace = only_inplace is True
     model = _MODEL
     out = {'succ': [], 'fails': [], 'transitions': 0, 'replays': 0, 'raised': 0}
-    sys_ = replay(model, pool, seed, history); out['replays'] += 1
+    try:
+        sys_ = replay(model, pool, seed, history); out['replays'] += 1
+        got = hashlib.blake2b(repr(canon(sys_)).encode(), digest_size=16).digest() if expect is not None else None
+    except Exception as e:
+        sys_, got = None, repr(e)
+    if expect is not None and got != expect:
+        # the same history, replayed from scratch in this process, no longer reaches the state it reached when it was first
+        # executed: something outside the operands (module-level state left behind by other calls) decides the outcome
+        if part[0] == 0:
+            nm = model.ops[history[-1][0]].base if history else 'initial'
+            out['fails'].append(('replay-diverged:%s' % nm, 'replaying the history gives a different state than its first execution (hidden state across calls)',
+                                 {'pool': pool, 'history': [list(map(_ser, h)) for h in history], 'ops': [model.ops[h[0]].name for h in history]}))
+        return out
     trs = list(enabled_transitions(model, sys_, bound_inplace - inplace_used))
     if only_inplace:
         # last level, reduced: in-place operations on targets whose buffers are reachable from another live object
@@ -429,7 +442,7 @@ def explore(model, tier, seed, jobs, depth, bound_inplace, pools=None, last_inpl
     frontier = []
     for pool in names:
         seen[pool] = {(hashlib.blake2b(repr(canon(model.pools[pool](seed))).encode(), digest_size=16).digest(), None)[0]}
-        frontier.append((pool, [], 0))
+        frontier.append((pool, [], 0, None))
         stats['per_pool'][pool] = {'states': 1, 'transitions': 0}
     with ctx.Pool(jobs) as p:
         for lvl in range(1, depth + 1):
@@ -438,7 +451,7 @@ def explore(model, tier, seed, jobs, depth, bound_inplace, pools=None, last_inpl
             heavy = lambda pl: 0 if any(w in pl for w in ('solver', 'chain', 'markov', 'quantum', 'data', 'snap')) else 1
             frontier.sort(key=lambda x: heavy(x[0]))
             nparts = lambda pl: (4 * jobs if lvl == 1 else (4 if heavy(pl) == 0 and lvl == 2 else 1))
-            args = [(pool, seed, h, iu, bound_inplace, last, last and last_inplace_only, (i_, nparts(pool))) for pool, h, iu in frontier for i_ in range(nparts(pool))]
+            args = [(pool, seed, h, iu, bound_inplace, last, last and last_inplace_only, (i_, nparts(pool)), dg) for pool, h, iu, dg in frontier for i_ in range(nparts(pool))]
             nxt = []
             new_per_pool = collections.Counter()
             for (a, out) in zip(args, p.imap(_expand, args, chunksize=max(1, min(8, len(args) // (jobs * 16) or 1)))):
@@ -450,7 +463,7 @@ def explore(model, tier, seed, jobs, depth, bound_inplace, pools=None, last_inpl
                     stats['partitions'].add(key[1])
                     if key[0] not in seen[pool]:
                         seen[pool].add(key[0])
-                        nxt.append((pool, a[2] + [tr], iu))
+                        nxt.append((pool, a[2] + [tr], iu, key[0]))
                         new_per_pool[pool] += 1
             stats['per_depth'][str(lvl)] = {'frontier_in': len(frontier), 'new_states': len(nxt), 'new_states_per_pool': dict(new_per_pool)}
             for pool in names:
